@@ -45,26 +45,74 @@ def run(check):
   if cas is None:
     r_cr.cannot_decide('_MetricCache._check_available_space not found')
   else:
+    from ..paths import PathExec, mentions
     g = cx.cfg(cas)
     fires = nodes_calling(g, lambda c: _calls_event(c, 'cacheSpaceAvailable'))
-    tests = [n for n in g.nodes if n.kind == 'test' and 'CACHE_SIZE_LOW_WATERMARK' in unparse(n.ast)]
-    live = [n for n in tests if isinstance(n.ast, ast.Compare) and dotted(n.ast.left) == 'self.size' and
-            isinstance(n.ast.ops[0], (ast.Lt, ast.LtE))]
-    if fires and live and all(f not in g.reach([g.entry], normal_only=True, removed_edge=lambda a, lab, b: a in live and
-                                                isinstance(lab, tuple) and lab[0] == 'T') for f in fires):
-      r_cr.ok('_check_available_space: live self.size < low watermark -> cacheSpaceAvailable', cas.loc())
-    else:
-      r_cr.violate('space check', cas, None, '_check_available_space does not fire cacheSpaceAvailable under a comparison of the '
-                   'live self.size with CACHE_SIZE_LOW_WATERMARK', construct='self.size < settings.CACHE_SIZE_LOW_WATERMARK')
-    # when the drain brought the cache below the watermark while it was flagged full, the event must fire:
-    # the only other conjunct allowed is the cacheTooFull flag
-    for n in g.nodes:
-      if n.kind == 'test' and n not in live and n.ast is not None:
-        t = unparse(n.ast)
-        if 'cacheTooFull' in t:
+    SIZE = ('attr', ('param', cas.params[0] if cas.params else 'self'), 'size')
+
+    def is_low(t):
+      return isinstance(t, tuple) and t[0] == 'attr' and t[-1] == 'CACHE_SIZE_LOW_WATERMARK'
+
+    def below(pol, t):
+      """True / False when the decision says live size < (<=) low watermark / the opposite; None if it is another test"""
+      if not (isinstance(t, tuple) and t[0] == 'cmp'):
+        return None
+      op, l, r = t[1], t[2], t[3]
+      if l == SIZE and is_low(r):
+        if op in ('Lt', 'LtE'):
+          return pol == 'T'
+        if op in ('Gt', 'GtE'):
+          return pol == 'F'
+      if r == SIZE and is_low(l):
+        if op in ('Gt', 'GtE'):
+          return pol == 'T'
+        if op in ('Lt', 'LtE'):
+          return pol == 'F'
+      return None
+
+    def flag(pol, t):
+      """True when the decision says state.cacheTooFull is set, False when clear, None otherwise"""
+      if isinstance(t, tuple) and t[0] == 'truth' and isinstance(t[1], tuple) and t[1][0] == 'attr' and t[1][-1] == 'cacheTooFull':
+        return pol == 'T'
+      return None
+
+    px = PathExec(cx, cas, unroll=0, follow_exceptions=False)
+    n_fire = 0
+    problems = []
+    for hit in px.run(set(fires) | {g.exit}):
+      fired = any(n in fires for n in hit.trail)
+      if hit.node is g.exit and fired:
+        continue
+      decisions = [(pol, t, a) for pol, t, a, n in hit.conds if pol in ('T', 'F')]
+      b = [below(pol, t) for pol, t, a in decisions]
+      fl = [flag(pol, t) for pol, t, a in decisions]
+      others = [a for (pol, t, a), x, y in zip(decisions, b, fl) if x is None and y is None]
+      if hit.node in fires:
+        n_fire += 1
+        if True not in b:
+          problems.append((hit.node.ast, 'cacheSpaceAvailable can fire on a path that did not find the live self.size below '
+                           'CACHE_SIZE_LOW_WATERMARK'))
+        for a in others:
+          problems.append((a, 'cacheSpaceAvailable is additionally conditioned on `%s`' % unparse(a)))
+      else:
+        # returning without the event is right only when the cache is not flagged full or is not below the watermark
+        if False not in b and False not in fl:
+          last = [n for n in hit.trail if n.ast is not None]
+          problems.append((last[-1].ast if last else None, '_check_available_space can return without firing '
+                           'cacheSpaceAvailable although the cache was flagged full and is below the low watermark'))
+    if not fires or not n_fire:
+      problems.append((None, '_check_available_space does not fire cacheSpaceAvailable under a comparison of the live '
+                       'self.size with CACHE_SIZE_LOW_WATERMARK'))
+    if problems:
+      seen_p = set()
+      for node, msg in problems:
+        if msg in seen_p:
           continue
-        if any(f in g.reach([n], normal_only=True) for f in fires) and n in g.reach([g.entry], normal_only=True):
-          r_cr.violate('extra condition on the release', cas, n.ast, 'cacheSpaceAvailable is additionally conditioned on `%s`' % t)
+        seen_p.add(msg)
+        r_cr.violate('space check', cas, node, msg, construct=None if node is not None else
+                     'self.size < settings.CACHE_SIZE_LOW_WATERMARK')
+    else:
+      r_cr.ok('_check_available_space: flagged full and live self.size < low watermark <=> cacheSpaceAvailable', cas.loc())
   inherited = cmx.lock_inherited()
   for name, m in sorted(cmx.methods.items()):
     if name in inherited or m.is_property:
